@@ -23,6 +23,11 @@ Begin(e, i) ==
 Ns(e, i) ==
     IF skipping THEN TRUE
     ELSE IF ~e.found THEN Report(i, "MISMATCH", "no namespace for a module")
+    \* D_C18_allcaps_import: the import alias of a type whose name consists of capital letters (and hyphens) only is left out
+    \* -- the backend takes such a name for an information object class, which has no declaration to import
+    ELSE IF e.unresolved # <<>> /\ \A k \in DOMAIN e.unresolved : (\E j \in DOMAIN e.allcaps_imports : e.allcaps_imports[j] = e.unresolved[k]) THEN
+         (IF "D_C18_allcaps_import" \in KnownDevs THEN Report(i, "DEVIATION", "D_C18_allcaps_import")
+          ELSE Report(i, "MISMATCH", "the import alias of an all-capital type name is missing (deviation D_C18_allcaps_import, not a listed known finding)"))
     ELSE IF e.unresolved # <<>> THEN Report(i, "MISMATCH", "a mentioned type name is neither declared in the namespace nor imported")
     ELSE IF e.dangling # <<>> THEN Report(i, "MISMATCH", "an import alias points at a name its namespace does not declare")
     ELSE TRUE
